@@ -63,6 +63,16 @@ one-level summaries computed to a fixpoint over all units) plus Engine I (sa/int
                                what a parameter points to and the argument is a freshly computed object (every definition of the local is a call result, it is no part of the
                                parameter), the function has examined the new object (excluded that kind) -- an unexamined one can take the same arm again at every level.
 
+  R13.21 index below count    an array field whose storage is allocated with an element count reachable from the owner (derived from the allocation sites: `X->F = calloc(X->G->H, ..)`)
+                               is subscripted only with indices that the dominating comparisons place strictly below that count: the guard-fact engine remembers, per path, what it is
+                               `<` and `<=` (comparisons with an element count, with a variable that is itself so limited, bounds a callee establishes on every return for what it stores
+                               through an out-parameter); an index whose tightest known limit is `<= count` addresses the element one past the allocation.
+  R13.22 printer re-entry     printing a diagnostic terminates: code that the diagnostic printer runs over the reported line and that can itself issue a located diagnostic
+                               (derived from the call graph) reports a position that is not after its cursor (Engine I over every path), is applied only to cursors strictly inside the
+                               window it was given, and the printer's window ends at the reported position; else the nested diagnostic meets the same bytes again: unbounded recursion.
+  R13.23 assembler accepts    the immediates of the bit-field templates fit a sign-extended 32-bit operand for every width/offset the layout admits (C04 R04.1/R04.2 re-issued):
+                               assembly that the assembler rejects is not output.
+
 Not implemented (stated, not claimed): error_at's pointer lies inside current_file->contents (R13.6, second clause);
 store_fp/store_gp call sites whose argument is MIN(8,size) / size-8 (R13.3, listed as not judged in the evidence);
 assert(ty->size <= 16) in emit_text and the two asserts of hashmap.c:rehash (R13.4, listed).
@@ -254,7 +264,11 @@ def run(P, rep, tier):
                        'global (R13.18, call graph). Values of the input that index the compiler\'s own arrays are followed through out-parameters and loop counters by the guard-fact analysis and '
                        'must be bounded on both sides (R13.19). Direct self-calls must not re-enter with the same input (R13.20: identical parameters after an effect-free prefix; an unexamined '
                        'fresh object under the kind guard that selected the arm). '
-                       'Not decided: termination in general (loops, indirect recursion), acceptance of all byte strings, recursion depth.')
+                       'Subscripts of array fields whose element count the owner records (derived from the allocation sites) are compared with the relational bounds the dominating comparisons '
+                       'establish: a tightest limit of `<= count` is an index one past the allocation (R13.21). The recursion diagnostic printer -> column computation -> UTF-8 decoder -> diagnostic is '
+                       'proved to make progress: reported position not after the cursor (interpreted on every path), decoder applied strictly inside the window, window ends at the reported position (R13.22). '
+                       'The bit-field templates\' immediates are encodable (obligations of C04 re-issued, R13.23). '
+                       'Not decided: termination in general (loops, indirect recursion other than through the diagnostic printer), acceptance of all byte strings, recursion depth.')
     rep.assumptions += ['calloc/malloc/open_memstream succeed', 'every Node that reaches the code generator was typed by add_type and is not modified afterwards (typing relation injected into codegen.c)',
                         'a forced merge of analysis states (more than %d disjuncts, loop widening) makes disagreeing facts unknown, never may-be-NULL' % L.CAP, 'a callee does not reset an object field the caller has just tested (no alias kills); globals are killed only by direct writers',
                         'R13.9: the successor of the TK_EOF token is NULL; out-parameters (Token **rest) are not aliased; ' + '; '.join('%s() %s' % (f, why) for f, (m, why) in sorted(MARKER_MODELS.items()))
@@ -275,6 +289,9 @@ def run(P, rep, tier):
                         'a comparison with something that is not itself an unbounded value of the input counts as an upper limit (whether it is the right limit is not decided); '
                         '++ keeps a lower bound, -- an upper bound (no overflow)',
                         'R13.20: a function in W.pure has no effect; a local all of whose definitions are call results is no part of the parameter',
+                        'R13.21: an array field has the element count of its allocation site for as long as the owner exists (owner and array are replaced together); where the index is compared with the '
+                        'same count field of another type object than the owner\'s (a `ty` parameter next to the initializer), that object is assumed to describe the same array; an index with no known relation to a count is listed, not judged',
+                        'R13.22: the printer finds the start of the line at or before the reported position; the nested printer starts from the same line start, so it examines the same bytes in the same order',
                         'facts established in other functions, each confirmed by reading: ' + '; '.join('%s:%s %s (%s)' % (k[0], k[1], k[2], v) for k, v in sorted(ASSUMED.items()))]
     W = _world(P)
     engs = L.solve(W)
@@ -2162,8 +2179,8 @@ def r1321(W, engs, rep):
                 b = d['bad']
                 key = '%s[%s]:index<=%s' % (base, b['index'], b['bound'].replace(' ', ''))
                 obs[key] = (False, '%s() subscripts `%s` with `%s`, which is only known to be at most `%s`%s (a non-strict comparison): the array has exactly that many elements (%s.%s is allocated with '
-                                   '%s elements), so an index equal to the count -- e.g. a designator `[a ... N]` / `[N]` for an array of N elements -- addresses the element one past the allocation; what '
-                                   'lies there (NULL or foreign heap data) is then used as an element: SIGSEGV or silent corruption instead of the diagnostic "index exceeds array bounds"%s'
+                                   '%s elements), so an index equal to the count -- an input value N where the array has N elements -- addresses the element one past the allocation; what '
+                                   'lies there (NULL or foreign heap data) is then used as an element: SIGSEGV or silent corruption instead of a located diagnostic%s'
                                    % (f, node.inner[0].src(), node.inner[1].src(), b['bound'], (' through `%s`' % b['via']) if b['via'] else '', d['rec'], d['field'],
                                       ' / '.join('owner' + x for x in d['sufs']), '' if b['tier'] == 1 else ' (the count compared with is that of another type object; assumed to describe the same array)'), where, {'bound': b})
             elif d['ok']:
@@ -2391,6 +2408,29 @@ def _entry_copies(fd, body, pid):
     return out
 
 
+def _single_def(fd, x):
+    """the expression a use of a local stands for: its initializer, if the local is declared with one and never changed afterwards"""
+    x = x.strip_all()
+    if x.kind == 'DeclRefExpr' and x.ref_kind == 'VarDecl':
+        for d in fd.find('VarDecl'):
+            if d.id == x.ref_id and 'init' in d.d and not _var_writes(fd, d.id):
+                ex = [c for c in d.inner if not c.kind.endswith('Attr')]
+                if ex:
+                    return ex[-1].strip_all()
+    return x
+
+
+def _loop_slots(p):
+    """(condition, body) of a while/for/if node"""
+    if p.kind == 'ForStmt':
+        raw, itr, slots = p.d.get('inner', []), iter(p.inner), []
+        for r in raw:
+            slots.append(next(itr) if (isinstance(r, dict) and r) else None)
+        slots = (slots + [None] * 5)[:5]
+        return slots[2], slots[4]
+    return p.inner[0], (p.inner[1] if len(p.inner) > 1 else None)
+
+
 def r1322(P, W, rep):
     """printing a diagnostic terminates.  The printer computes the column of the reported position by running input-examining code over the text of the line
     in front of that position; that code reports malformed input through the same diagnostic functions, i.e. it re-enters the printer.  The re-entry is
@@ -2426,7 +2466,7 @@ def r1322(P, W, rep):
                     work.append(h)
         return out
     below = reach_from(PR)
-    entries = set(f for f in fdef if PR in callees[f])
+    entries = set(f for f in fdef if PR in callees[f])       # the diagnostic functions: they call the printer
     closing = {}
     for D in sorted(((below - entries) | set([PR])) & set(fdef)):
         for c in fdef[D][2].calls():
@@ -2438,164 +2478,158 @@ def r1322(P, W, rep):
         return
     vps = [c for c in va.inner if c.kind == 'ParmVarDecl']
     vids = [p.id for p in vps]
-    rep.extra['diagnostic_printer_re_entry'] = {'functions_the_printer_runs': sorted(below), 'diagnostic_functions': sorted(entries),
+    rep.extra['diagnostic_printer_re_entry'] = {'functions_the_printer_runs': sorted(below - entries - set([PR])), 'diagnostic_functions': sorted(entries),
                                                 'calls_that_re_enter': {D: sorted(set(c.callee() for c in cs)) for D, cs in sorted(closing.items())}}
-    # (c) the printer's window: a call G(B, loc - B) with loc an unchanged parameter of the printer
-    windows = {}     # G -> (index of the start parameter, index of the length parameter, index of the printer's position parameter)
-    for D in sorted(closing):
-        un, u, fd = fdef[D]
-        if D == PR:
-            rep.undecided('R13.22', 'tokenize.c:verror_at:re-enters-directly', 'the diagnostic printer calls a diagnostic function itself: progress of that recursion is not analysed', where=pwhere)
-            continue
-        Gs = sorted(G for G in callees[PR] if G in fdef and (G == D or D in reach_from(G)))
-        for G in Gs:
-            if G in windows:
+    covered = set()
+    if PR in closing:
+        covered.add(PR)
+        rep.undecided('R13.22', 'tokenize.c:verror_at:re-enters-directly', 'the diagnostic printer calls a diagnostic function itself: progress of that recursion is not analysed', where=pwhere)
+    for G in sorted(g for g in callees[PR] if g in fdef and g not in entries and g != PR and ((set([g]) | reach_from(g)) & set(closing))):
+        gun, gu, gfd = fdef[G]
+        gwhere = '%s:%d' % (gun, gfd.line)
+        gps = [c for c in gfd.inner if c.kind == 'ParmVarDecl']
+        # ---- (c) the printer's window: a call G(B, position - B) with `position` an unchanged parameter of the printer
+        window = None
+        wkey = 'tokenize.c:verror_at:%s-window-ends-at-position' % G
+        for c in va.calls(G):
+            a = c.args()
+            found = None
+            for j, x in enumerate(a):
+                y = _single_def(va, x)
+                extra = 0
+                while y.kind == 'BinaryOperator' and y.opcode in ('+', '-') and y.inner[1].int_value() is not None and y.inner[0].strip_all().kind == 'BinaryOperator':
+                    extra += y.inner[1].int_value() * (1 if y.opcode == '+' else -1)
+                    y = y.inner[0].strip_all()
+                if y.kind == 'BinaryOperator' and y.opcode == '-':
+                    l, r = y.inner[0].strip_all(), y.inner[1].strip_all()
+                    if l.kind == 'DeclRefExpr' and l.ref_id in vids and not _var_writes(va, l.ref_id) and r.kind == 'DeclRefExpr':
+                        for i, z in enumerate(a):
+                            z = z.strip_all()
+                            if i != j and z.kind == 'DeclRefExpr' and z.ref_id == r.ref_id:
+                                found = (i, j, vids.index(l.ref_id), extra)
+            if found is None:
+                rep.undecided('R13.22', wkey, 'the call %s(%s) in the printer is not of the form (start, position - start): the window the printer examines is not recognised'
+                              % (G, ', '.join(x.src() for x in a)), where='tokenize.c:%d' % c.line)
+                window = False
                 continue
-            for c in va.calls(G):
-                a = c.args()
-                key = 'tokenize.c:verror_at:%s-window-ends-at-position' % G
-                found = None
-                for j, x in enumerate(a):
-                    y = x.strip_all()
-                    extra = 0
-                    if y.kind == 'BinaryOperator' and y.opcode in ('+', '-') and y.inner[1].int_value() is not None and y.inner[0].strip_all().kind == 'BinaryOperator':
-                        extra = y.inner[1].int_value() * (1 if y.opcode == '+' else -1)
-                        y = y.inner[0].strip_all()
-                    if y.kind == 'BinaryOperator' and y.opcode == '-':
-                        l, r = y.inner[0].strip_all(), y.inner[1].strip_all()
-                        if l.kind == 'DeclRefExpr' and l.ref_id in vids and not _var_writes(va, l.ref_id) and r.kind == 'DeclRefExpr':
-                            for i, z in enumerate(a):
-                                z = z.strip_all()
-                                if i != j and z.kind == 'DeclRefExpr' and z.ref_id == r.ref_id:
-                                    found = (i, j, vids.index(l.ref_id), extra)
-                if found is None:
-                    rep.undecided('R13.22', key, 'the call %s(%s) in the printer is not of the form (start, position - start): the window the printer examines is not recognised'
-                                  % (G, ', '.join(x.src() for x in a)), where='tokenize.c:%d' % c.line)
-                    windows[G] = None
-                    continue
-                i, j, li, extra = found
-                if windows.get(G, 0) is None:
-                    continue
-                windows[G] = (i, j, li)
-                rep.ob('R13.22', key if extra <= 0 else key + ':length+%d' % extra, extra <= 0,
-                       'verror_at() computes the column with %s(%s): the window it examines reaches %d byte(s) beyond the position `%s` the diagnostic is about; when %s() reports that byte as '
-                       'malformed, the nested printer examines it again -- the compiler recurses until the stack overflows (SIGSEGV) instead of printing the diagnostic'
-                       % (G, ', '.join(x.src() for x in a), extra, vps[li].name, D), where='tokenize.c:%d' % c.line)
-    for D in sorted(closing):
-        if D == PR:
+            i, j, li, extra = found
+            if window is not False:
+                window = (i, j, li)
+            rep.ob('R13.22', wkey if extra <= 0 else wkey + ':length+%d' % extra, extra <= 0,
+                   'verror_at() computes the column with %s(%s): the window it examines reaches %d byte(s) beyond the position `%s` the diagnostic is about; when the code %s() runs reports that byte as '
+                   'malformed, the nested printer examines it again -- the compiler recurses until the stack overflows (SIGSEGV) instead of printing the diagnostic'
+                   % (G, ', '.join(x.src() for x in a), extra, vps[li].name, G), where='tokenize.c:%d' % c.line)
+        if G in closing:
+            covered.add(G)
+            rep.undecided('R13.22', '%s:%s:reports-itself' % (gun, G), '%s(), which the printer calls, issues a diagnostic itself: the cursor it reports is not related to a window' % G, where=gwhere)
+        if not window:
             continue
-        un, u, fd = fdef[D]
-        dps = [c for c in fd.inner if c.kind == 'ParmVarDecl']
-        dwhere = '%s:%d' % (un, fd.line)
-        # position parameter of each diagnostic function called here
+        # position parameter of each diagnostic function: the parameter it hands on unchanged as the printer's position
         ent = {}
-        for c in closing[D]:
-            E = c.callee()
-            if E in ent:
-                continue
-            ent[E] = None
-            if E not in entries:
-                continue
+        for E in sorted(entries):
             eun, eu, efd = fdef[E]
-            eps = [x for x in efd.inner if x.kind == 'ParmVarDecl']
+            eps = [x.id for x in efd.inner if x.kind == 'ParmVarDecl']
             pcs = efd.calls(PR)
-            lis = set(w[2] for w in windows.values() if w)
-            if len(pcs) == 1 and len(lis) == 1:
+            ent[E] = None
+            if len(pcs) == 1:
                 a = pcs[0].args()
-                li = list(lis)[0]
-                x = a[li].strip_all() if li < len(a) else None
-                if x is not None and x.kind == 'DeclRefExpr' and x.ref_id in [p.id for p in eps] and not _var_writes(efd, x.ref_id):
-                    ent[E] = [p.id for p in eps].index(x.ref_id)
-        for E, k in sorted(ent.items()):
-            if k is None:
-                rep.undecided('R13.22', '%s:%s:%s:position' % (un, D, E), '%s(), which the diagnostic printer runs, calls %s(): the position that call reports cannot be related to the cursor '
-                              '(%s() does not hand one of its parameters on to the printer unchanged)' % (D, E, E), where=dwhere)
-        # (a) positions reported by D, relative to its parameters (Engine I, every path)
-        syms = [Sym(p.name or 'p%d' % i) for i, p in enumerate(dps)]
-        try:
-            it = Interp(P, u, {'opaque': [], 'loop_limit': 1})
-            paths = it.explore(D, lambda ctx: list(syms), max_paths=4000)
-        except (AnalysisBroken, Unsupported) as e:
-            rep.undecided('R13.22', '%s:%s:reported-position' % (un, D), '%s() cannot be interpreted: %s' % (D, e), where=dwhere)
-            continue
-        offs = {}      # (E, parameter index, offset) -> line
-        odd = {}
-        for ctx, out in paths:
-            if out[0] != 'noreturn' or ent.get(out[1]) is None:
+                x = a[window[2]].strip_all() if window[2] < len(a) else None
+                if x is not None and x.kind == 'DeclRefExpr' and x.ref_id in eps and not _var_writes(efd, x.ref_id):
+                    ent[E] = eps.index(x.ref_id)
+        for T in sorted(t for t in callees[G] if t in fdef and t not in entries and t != G and ((set([t]) | reach_from(t)) & set(closing))):
+            un, u, fd = fdef[T]
+            inside = sorted((set([T]) | reach_from(T)) & set(closing))
+            covered |= set(inside)
+            dps = [c for c in fd.inner if c.kind == 'ParmVarDecl']
+            dwhere = '%s:%d' % (un, fd.line)
+            if any(fdef[d][0] != un for d in inside):
+                rep.undecided('R13.22', '%s:%s:reported-position' % (un, T), '%s() issues diagnostics through functions of another unit (%s): not followed' % (T, ', '.join(inside)), where=dwhere)
                 continue
-            E, k = out[1], ent[out[1]]
-            v = out[2][k] if k < len(out[2]) else None
-            l = Lin.of(v) if v is not None else None
-            if isinstance(l, int):
-                l = None
-            hit = None
-            if l is not None and len(l.terms) == 1:
-                (co, leaf), = l.terms.values()
-                if co == 1:
-                    for i, s in enumerate(syms):
-                        if leaf is s or (isinstance(leaf, Sym) and leaf.key() == s.key()):
-                            hit = (E, i, l.c)
-            if hit is None:
-                odd[(E, repr(v))] = out[3]
-            else:
-                offs.setdefault(hit, out[3])
-        for (E, v), line in sorted(odd.items()):
-            rep.undecided('R13.22', '%s:%s:%s(%s)' % (un, D, E, v.replace(' ', '')), 'the position %s() reports (%s) is not its cursor parameter plus a constant' % (D, v), where='%s:%d' % (un, line))
-        cursors = sorted(set(i for (E, i, o) in offs))
-        for (E, i, o), line in sorted(offs.items()):
-            rep.ob('R13.22', '%s:%s:%s(param#%d%s)' % (un, D, E, i + 1, ('%+d' % o) if o else ''), o <= 0,
-                   '%s() is run by the diagnostic printer over the text in front of the reported position and reports malformed input at `%s + %d`, %d byte(s) after the cursor it was given: the '
-                   'nested printer then examines the text up to that position, meets the same malformed bytes at the same cursor and reports them again -- the compiler recurses until the stack '
-                   'overflows (SIGSEGV after thousands of lines of output) instead of printing the diagnostic once' % (D, dps[i].name, o, o), where='%s:%d' % (un, line))
-        # (b) the function(s) between the printer and D apply D only inside the window
-        for G in sorted(G for G in callees[PR] if G in fdef and G != D and D in reach_from(G)):
-            w = windows.get(G)
-            gun, gu, gfd = fdef[G]
-            key = '%s:%s:%s-inside-window' % (gun, G, D)
-            gwhere = '%s:%d' % (gun, gfd.line)
-            if w is None:
+            # ---- (a) positions reported below T, relative to T's parameters (Engine I, every path; helpers of the unit are inlined)
+            syms = [Sym(p.name or 'p%d' % i) for i, p in enumerate(dps)]
+            try:
+                it = Interp(P, u, {'opaque': [], 'loop_limit': 1})
+                it.noreturn = set(it.noreturn) | entries
+                paths = it.explore(T, lambda ctx: list(syms), max_paths=4000)
+            except (AnalysisBroken, Unsupported) as e:
+                rep.undecided('R13.22', '%s:%s:reported-position' % (un, T), '%s() cannot be interpreted: %s' % (T, e), where=dwhere)
                 continue
-            if D not in callees[G] or len(cursors) != 1:
-                rep.undecided('R13.22', key, '%s() reaches %s() only through other functions (or %s() has no single cursor parameter): the cursors it is applied to are not recognised' % (G, D, D), where=gwhere)
+            offs, odd, seen_ent = {}, {}, set()
+            for ctx, out in paths:
+                if out[0] != 'noreturn' or out[1] not in entries:
+                    continue
+                E, k = out[1], ent.get(out[1])
+                seen_ent.add(E)
+                if k is None:
+                    continue
+                v = out[2][k] if k < len(out[2]) else None
+                l = Lin.of(v) if v is not None else None
+                hit = None
+                if isinstance(l, Lin) and len(l.terms) == 1:
+                    (co, leaf), = l.terms.values()
+                    if co == 1 and isinstance(leaf, Sym):
+                        for i, s in enumerate(syms):
+                            if leaf.key() == s.key():
+                                hit = (E, i, l.c)
+                if hit is None:
+                    odd[(E, repr(v))] = out[3]
+                else:
+                    offs.setdefault(hit, out[3])
+            for E in sorted(seen_ent):
+                if ent.get(E) is None:
+                    rep.undecided('R13.22', '%s:%s:%s:position' % (un, T, E), '%s(), which the diagnostic printer runs, reaches %s(): the position that call reports cannot be related to the cursor '
+                                  '(%s() does not hand one of its parameters on to the printer unchanged)' % (T, E, E), where=dwhere)
+            for (E, v), line in sorted(odd.items()):
+                rep.undecided('R13.22', '%s:%s:%s(%s)' % (un, T, E, v.replace(' ', '')), 'the position %s() reports (%s) is not a parameter of %s() plus a constant' % (T, v, T), where='%s:%d' % (un, line))
+            if not offs and not odd and not seen_ent:
+                rep.undecided('R13.22', '%s:%s:reported-position' % (un, T), 'no path of %s() to a diagnostic was found although %s can issue one' % (T, ', '.join(inside)), where=dwhere)
+            cursors = sorted(set(i for (E, i, o) in offs))
+            for (E, i, o), line in sorted(offs.items()):
+                rep.ob('R13.22', '%s:%s:%s(param#%d%s)' % (un, T, E, i + 1, ('%+d' % o) if o else ''), o <= 0,
+                       '%s() is run by the diagnostic printer over the text in front of the reported position and reports malformed input at `%s + %d`, %d byte(s) after the cursor it was given: the '
+                       'nested printer then examines the text up to that position, meets the same malformed bytes at the same cursor and reports them again -- the compiler recurses until the stack '
+                       'overflows (SIGSEGV after thousands of lines of output) instead of printing the diagnostic once' % (T, dps[i].name, o, o), where='%s:%d' % (un, line))
+            # ---- (b) G applies T only to cursors inside its window
+            key = '%s:%s:%s-inside-window' % (gun, G, T)
+            if len(cursors) != 1:
+                if offs:
+                    rep.undecided('R13.22', key, '%s() reports positions relative to more than one of its parameters: its cursor is not recognised' % T, where=gwhere)
                 continue
             kD = cursors[0]
-            gps = [c for c in gfd.inner if c.kind == 'ParmVarDecl']
             gbody = gu.body(G)
-            starts = _entry_copies(gfd, gbody, gps[w[0]].id) if w[0] < len(gps) else set()
-            nid = gps[w[1]].id if w[1] < len(gps) else None
-            for c in gfd.calls(D):
+            starts = _entry_copies(gfd, gbody, gps[window[0]].id) if window[0] < len(gps) else set()
+            nid = gps[window[1]].id if window[1] < len(gps) else None
+            for c in gfd.calls(T):
                 a = c.args()
                 cur = a[kD].strip_all() if kD < len(a) else None
-                verdict, rel = None, None
+                rel = None
                 if cur is not None and cur.kind == 'DeclRefExpr' and nid is not None and not _var_writes(gfd, nid):
                     n, p = c, c.parent
                     while p is not None and p is not gfd:
-                        if p.kind in ('WhileStmt', 'IfStmt') or (p.kind == 'ForStmt'):
-                            if p.kind == 'ForStmt':
-                                raw, itr, slots = p.d.get('inner', []), iter(p.inner), []
-                                for r in raw:
-                                    slots.append(next(itr) if (isinstance(r, dict) and r) else None)
-                                slots = (slots + [None] * 5)[:5]
-                                cnd = slots[2]
-                                inbody = n is slots[4]
-                            else:
-                                cnd = p.inner[0]
-                                inbody = n is p.inner[1]
-                            if cnd is not None and inbody:
+                        if p.kind in ('WhileStmt', 'IfStmt', 'ForStmt'):
+                            cnd, bdy = _loop_slots(p)
+                            if cnd is not None and n is bdy:
                                 # nothing between the test and the call changes the cursor
-                                blk = n
                                 clean = True
-                                if blk.kind == 'CompoundStmt':
-                                    for st in blk.inner:
+                                if n.kind == 'CompoundStmt':
+                                    for st in n.inner:
                                         if _inside(c, st):
                                             break
                                         if any(_inside(x, st) for x in _var_writes(gfd, cur.ref_id)):
                                             clean = False
                                 for q in _conjuncts(cnd):
                                     q = q.strip_all()
+                                    neg = False
+                                    while q.kind == 'UnaryOperator' and q.opcode == '!':
+                                        neg = not neg
+                                        q = q.inner[0].strip_all()
                                     if q.kind != 'BinaryOperator' or q.opcode not in ('<', '<=', '>', '>='):
                                         continue
-                                    lo, hi, op = (q.inner[0].strip_all(), q.inner[1].strip_all(), q.opcode) if q.opcode in ('<', '<=') else (q.inner[1].strip_all(), q.inner[0].strip_all(), {'>': '<', '>=': '<='}[q.opcode])
+                                    op = q.opcode if not neg else {'<': '>=', '<=': '>', '>': '<=', '>=': '<'}[q.opcode]
+                                    lo, hi = q.inner[0].strip_all(), q.inner[1].strip_all()
+                                    if op in ('>', '>='):
+                                        lo, hi, op = hi, lo, {'>': '<', '>=': '<='}[op]
+                                    hi = _single_def(gfd, hi)
                                     if lo.kind == 'BinaryOperator' and lo.opcode == '-' and hi.kind == 'DeclRefExpr' and hi.ref_id == nid:
                                         x, y = lo.inner[0].strip_all(), lo.inner[1].strip_all()
                                         if x.kind == 'DeclRefExpr' and x.ref_id == cur.ref_id and y.kind == 'DeclRefExpr' and y.ref_id in starts and clean:
@@ -2604,12 +2638,16 @@ def r1322(P, W, rep):
                         n, p = p, p.parent
                 if rel is None:
                     rep.undecided('R13.22', key, '%s() calls %s(%s) but no dominating loop or branch condition of the form `cursor - start < length` (start: the value of parameter %d on entry, '
-                                  'length: parameter %d, unchanged) was recognised' % (G, D, ', '.join(x.src() for x in a), w[0] + 1, w[1] + 1), where='%s:%d' % (gun, c.line))
+                                  'length: parameter %d, unchanged) was recognised' % (G, T, ', '.join(x.src() for x in a), window[0] + 1, window[1] + 1), where='%s:%d' % (gun, c.line))
                 else:
                     rep.ob('R13.22', key if rel == '<' else key + ':cursor<=end', rel == '<',
                            '%s() applies %s() to cursors up to and including start + length (`<=`): the printer hands it the text in front of the reported position, so the byte at the '
                            'position itself is examined too; when that byte is what %s() reports, the nested printer examines it again and the compiler recurses until the stack overflows'
-                           % (G, D, D), where='%s:%d' % (gun, c.line))
+                           % (G, T, T), where='%s:%d' % (gun, c.line))
+    for D in sorted(set(closing) - covered):
+        un, u, fd = fdef[D]
+        rep.undecided('R13.22', '%s:%s:re-entry-not-recognised' % (un, D), '%s() can run below the diagnostic printer and issues a diagnostic (%s), but it is not reached through a call chain '
+                      'printer -> window function -> examining function that the rule understands' % (D, ', '.join(sorted(set(c.callee() for c in closing[D])))), where='%s:%d' % (un, fd.line))
 
 
 def r1323(P, rep, tier):
